@@ -6,17 +6,22 @@ judges the implementation directly."""
 import common
 
 PID = "C05"
-GEN = ["Utf8Tables", "ByteTables", "Recognizer"]
+GEN = ["Utf8Tables", "ByteTables", "Recognizer", "ReaderConsts"]
 LEAN_MODULE = "XV.Props.C05"
 THEOREMS = ["XV.Props.C05." + t for t in (
     "utf8_tables_spec", "table37_iff_table36", "utf8_step_complete", "utf8_step_sound",
     "utf8_decode_sound", "utf8_decode_complete", "utf8_exc_only_illformed", "utf8_encode_exact",
     "utf8_roundtrip", "bytetables_wellformed", "xlatOneTo_is_lookup", "bytetables_roundtrip", "bytetables_to_consistent",
     "utf16_roundtrip", "ucs4_decode_exact", "ucs4_encode_exact", "ucs4_rejects_out_of_range", "latin1_roundtrip",
+    "ascii_block_exact", "ascii_decode_exact", "ascii_roundtrip", "ascii_unrepresentable", "ascii_model_eq_reader_model",
     "probe_prefixes_are_encodings", "probe_eq_appendixF_decl", "probe_eq_appendixF_bom")]
 RULE = ("byte strings: all of length 1-2, 3/4-byte forms over boundary bytes, random scalar strings with "
         "ill-formed splices, each with several maxChars; UTF-16 strings: boundary + random (all scalars in "
-        "thorough); a case is non-trivial when it contains a byte >= 0x80 or a unit >= 0x80; distinct by text")
+        "thorough); a case is non-trivial when it contains a byte >= 0x80 or a unit >= 0x80; distinct by text; "
+        "single-byte transcoders (US-ASCII, ISO-8859-1, the four table code pages) and UCS-4: every byte value / "
+        "an illegal value at every position 0..80 of a legal run, decoded as a stream of transcodeFrom calls with "
+        "several (block, maxChars) sizes and in single calls; unrepresentable units at the same positions for "
+        "transcodeTo; US-ASCII documents with an illegal byte around the block boundaries of the reader")
 ASSUMPTIONS = ["ICU-provided encodings are outside the model", "XMLCh strings and byte buffers are modelled as lists of Nat"]
 TRUSTED = ["XV.Spec.Utf8 (Unicode Tables 3-6/3-7, D91) as transcribed"]
 
@@ -98,6 +103,16 @@ def gen_cases(ctx):
             bs = list(bs); bs[r.below(len(bs))] = r.below(256)
         mc = r.choice([1, 2, 3, 4, 33, 34, 35, 64, 200])
         F.append(("F %d" % mc, bs))
+    # (d) position sweep: every kind of ill-formed sequence after 0..80 decoded characters (the transcoder defers
+    # some errors once more than 32 characters are out: the next call must raise them)
+    BAD = [[0xF5, 0x80, 0x80, 0x80], [0xF7, 0xBF, 0xBF, 0xBF], [0xED, 0xA0, 0x80], [0xC0, 0x80], [0xE0, 0x80, 0x80],
+           [0xF0, 0x80, 0x80, 0x80], [0xF4, 0x90, 0x80, 0x80], [0x80], [0xF8, 0x88, 0x80, 0x80, 0x80],
+           [0xFC, 0x84, 0x80, 0x80, 0x80, 0x80], [0xFE], [0xFF], [0xE2, 0x41, 0x80], [0xC3, 0x41]]
+    for pos in range(0, 81):
+        for bad in BAD:
+            wide = (pos + len(bad)) % 3 == 0
+            run = [b for _ in range(pos) for b in (enc_utf8(0xE9) if wide else [0x61])]
+            F.append(("F %d" % r.choice([4096, pos + 1, pos + 2, 64, 200]), run + bad + [0x41] * 6))
     T = []
     for s in SCALAR_EDGE:
         for room in (1, 2, 3, 4, 8):
@@ -206,7 +221,9 @@ def check_decode_against_spec(ctx, byte_lists, origin, maxchars=None):
 def correspondence(ctx):
     utf8_correspondence(ctx)
     codec_correspondence(ctx)
+    stream_correspondence(ctx)
     doc_correspondence(ctx)
+    ascii_doc_correspondence(ctx)
 
 def utf8_correspondence(ctx):
     F, T = gen_cases(ctx)
@@ -393,6 +410,266 @@ def codec_correspondence(ctx):
     ctx.stats["distinct_nontrivial"] = ctx.stats.get("distinct_nontrivial", 0) + len(set(lines))
     ctx.samples.append({"case": lines[len(lines) // 2], "model": m[len(lines) // 2], "impl": i[len(lines) // 2]})
 
+# ------------------------------------------------------------------ single-byte transcoders as streams, position sweeps
+SWEEP_POS = list(range(0, 81))
+COMBOS = [(4096, 4096), (64, 64), (16, 7), (200, 40), (33, 33), (34, 34), (35, 200), (1, 1), (100, 34), (7, 3)]
+SINGLE = ["US-ASCII", "ISO-8859-1"] + TABLES
+
+def good_run(r, n):
+    return [0x20 + r.below(0x5F) for _ in range(n)]
+
+def unhx(t):
+    return [] if t == "-" else [int(x, 16) for x in t.split(".")]
+
+def spec_ascii(byte_lists):
+    """the executable Lean Spec (XV.Spec.Ascii.decode): (code points of the legal prefix, offset of the first illegal byte | None)"""
+    uniq = sorted({hx(b) for b in byte_lists})
+    out = common.run_driver(["codec"], input=("\n".join("SA " + u for u in uniq) + "\n").encode()).decode().split("\n")
+    res = {}
+    for u, o in zip(uniq, out):
+        f = o.split()
+        res[u] = (unhx(f[0]), None if f[1] == "legal" else int(f[2]))
+    return res
+
+def judge_stream(io, want, off):
+    """`want` = the Spec's code points of the maximal legal prefix, `off` = byte offset of the first illegal
+    byte (None: all legal; for single-byte encodings offset == number of characters before it).  Returns a
+    (key-suffix, text) contradiction or None."""
+    f = io.split()
+    if not f:
+        return ("no-output", "no observation")
+    if f[0] == "done" and len(f) >= 2:
+        got = unhx(f[1])
+        if off is not None:
+            return ("illegal-not-rejected", "illegal input at offset %d was not rejected: the stream was consumed to the end, delivered %d units (legal prefix has %d)" % (off, len(got), len(want)))
+        if got != want:
+            return ("wrong-units", "delivered units %s differ from the Spec's %s" % (hx(got), hx(want)))
+    elif f[0] == "exc" and len(f) >= 4:
+        got = unhx(f[2]); pos = int(f[3])
+        if off is None:
+            return ("legal-rejected", "legal input rejected with %s" % f[1])
+        if got != want[:len(got)]:
+            return ("wrong-units", "units delivered before the exception %s are not a prefix of the Spec's %s" % (hx(got), hx(want)))
+        if pos > off:
+            return ("illegal-not-rejected", "the call starting at offset %d threw, but the first illegal byte is at offset %d: it was consumed without an error" % (pos, off))
+    elif f[0] == "stalled":
+        return ("stalled", "transcodeFrom consumed nothing although bytes remain: " + io[:80])
+    else:
+        return ("bad-observation", io[:120])
+    if "charsizes-sum" in io:
+        return ("charsizes", "charSizes do not add up to bytesEaten (%s)" % f[-1])
+    return None
+
+def judge_single_from(io, bs, mc, legal, table):
+    """one transcodeFrom call on a single-byte encoding: `legal(b)`, `table(b)` = the Spec's code point"""
+    f = io.split()
+    n = min(mc, len(bs))
+    firstbad = next((k for k in range(n) if not legal(bs[k])), None)
+    if f and f[0] == "ok" and len(f) == 4:
+        got = unhx(f[1]); sz = unhx(f[2]); eaten = int(f[3])
+        if eaten > n or len(got) > mc:
+            return ("overrun", "consumed %d bytes / produced %d units with maxChars %d, srcCount %d" % (eaten, len(got), mc, len(bs)))
+        if firstbad is not None and eaten > firstbad:
+            return ("illegal-not-rejected", "illegal byte at index %d reported as consumed (bytesEaten %d) without an error" % (firstbad, eaten))
+        if got != [table(b) for b in bs[:eaten]] or len(got) != eaten:
+            return ("wrong-units", "units %s are not the decoding of the %d consumed bytes" % (hx(got), eaten))
+        if sz != [1] * len(got):
+            return ("charsizes", "charSizes %s for a single-byte encoding" % hx(sz))
+        if firstbad is None and eaten != n:
+            return ("legal-not-decoded", "legal block decoded only up to %d of %d" % (eaten, n))
+    elif f and f[0] == "exc":
+        if firstbad is None:
+            return ("legal-rejected", "legal block rejected with %s" % io)
+    else:
+        return ("bad-observation", io[:120])
+    return None
+
+def stream_correspondence(ctx):
+    r = ctx.rng
+    th = ctx.thorough()
+    tabs = load_gen_tables()
+    lines = []; meta = []
+    def table_of(enc):
+        if enc in tabs:
+            fr = tabs[enc][0]
+            return (lambda b: fr[b] != 0xFFFF), (lambda b: fr[b])
+        if enc == "US-ASCII":
+            return (lambda b: b < 0x80), (lambda b: b)
+        return (lambda b: True), (lambda b: b)
+    # (1) US-ASCII: every byte value at every position 0..80 of a legal run, whole-input streams + single calls
+    for pos in SWEEP_POS:
+        run = good_run(r, pos)
+        for b in range(256):
+            tail = good_run(r, (b + pos) % 3 * 3)
+            bs = run + [b] + tail
+            second = r.choice(COMBOS[1:])
+            for blk, mc in ([COMBOS[0], second] if (b >= 0x80 and (b % 4 == pos % 4 or th)) or b % 16 == 0 else [COMBOS[0]] if b >= 0x80 else [second]):
+                lines.append("GS US-ASCII %d %d %s" % (blk, mc, hx(bs))); meta.append(("s", "US-ASCII", bs))
+            if b in (0x7F, 0x80, 0xA0, 0xE9, 0xFF) or th:
+                for blk, mc in COMBOS:
+                    lines.append("GS US-ASCII %d %d %s" % (blk, mc, hx(bs))); meta.append(("s", "US-ASCII", bs))
+            if b >= 0x80 and (b % 8 == pos % 8 or th):
+                for mc in {max(1, pos), pos + 1, pos + 2, 4096}:
+                    lines.append("GF US-ASCII %d %s" % (mc, hx(bs))); meta.append(("f", "US-ASCII", bs, mc))
+    # two illegal bytes, the second one behind a deferred first; long legal runs with odd block sizes
+    for _ in range(3000 if th else 300):
+        n = r.choice([33, 34, 40, 66, 70, 100, 130])
+        bs = good_run(r, n)
+        for _k in range(r.choice([1, 2, 3])):
+            bs[r.below(n)] = 0x80 + r.below(0x80)
+        blk, mc = r.choice(COMBOS)
+        lines.append("GS US-ASCII %d %d %s" % (blk, mc, hx(bs))); meta.append(("s", "US-ASCII", bs))
+    # (2) US-ASCII / ISO-8859-1 / tables, transcodeTo: an unrepresentable unit at every position, both options
+    for enc in SINGLE:
+        if enc in tabs:
+            rep = sorted(u for u, b in tabs[enc][1].items() if b != 0 and 0x20 <= u < 0x7F)
+            unrep = [u for u in (0x80, 0x3A9, 0x4E2D, 0xFFFD, 0xFFFF, 0xD800, 0x100, 0x2028) if not tabs[enc][1].get(u)]
+            can = lambda u, e=enc: bool(tabs[e][1].get(u)) if u < 65536 else False
+        else:
+            lim = 0x80 if enc == "US-ASCII" else 0x100
+            rep = list(range(0x20, 0x7F)); unrep = [lim, lim + 1, 0x3A9, 0x4E2D, 0xFFFD, 0xFFFF, 0xD800, 0x17F]
+            can = lambda u, l=lim: u < l
+        for pos in SWEEP_POS if (enc == "US-ASCII" or th) else (0, 1, 31, 32, 33, 34, 40, 64, 80):
+            run = [r.choice(rep) for _ in range(pos)]
+            for u in unrep[:8 if (enc == "US-ASCII" or th) else 3]:
+                us = run + [u] + [r.choice(rep) for _ in range(pos % 3)]
+                for thr in (0, 1):
+                    room = r.choice([pos + 1, pos + 2, 200, max(1, pos)])
+                    lines.append("GT %s %d %d %s" % (enc, room, thr, hx(us))); meta.append(("t", enc, us, room, thr, can))
+        for u in list(range(0, 0x120)) + [0x17F, 0x20AC, 0xFFFF, 0x10000, 0x10FFFF]:
+            lines.append("GC %s %x" % (enc, u)); meta.append(("c", enc, u, can))
+    # (3) ISO-8859-1 and the table code pages: every byte value at the positions where a deferred-error rule
+    # would bite (they have none: every byte is defined), streams + single calls
+    for enc in ["ISO-8859-1"] + TABLES:
+        for pos in (SWEEP_POS if th else (0, 31, 32, 33, 34, 40, 80)):
+            run = good_run(r, pos)
+            if enc.startswith("IBM"):
+                run = [tabs[enc][1][c] for c in run]
+            for b0 in range(0, 256, 8):
+                bs = run + list(range(b0, b0 + 8))
+                blk, mc = r.choice(COMBOS)
+                lines.append("GS %s %d %d %s" % (enc, blk, mc, hx(bs))); meta.append(("s", enc, bs))
+                lines.append("GF %s %d %s" % (enc, r.choice([pos + 1, pos + 8, 4096]), hx(bs))); meta.append(("f", enc, bs, int(lines[-1].split()[2])))
+    # (4) UCS-4: a value above U+10FFFF / a legal supplementary at every position (the decoder throws at once: no deferral)
+    for enc in ("UCS-4LE", "UCS-4BE"):
+        for pos in (SWEEP_POS if th else (0, 1, 31, 32, 33, 34, 40, 80)):
+            cps = [rand_scalar(r) for _ in range(pos)]
+            for v in (0x110000, 0xFFFFFFFF, 0x10FFFF, 0x7FFFFFFF):
+                q = [(v >> 24) & 255, (v >> 16) & 255, (v >> 8) & 255, v & 255]
+                bs = spec_encode(enc, cps) + (q if enc.endswith("BE") else q[::-1]) + spec_encode(enc, [0x41])
+                blk, mc = r.choice([(4096, 4096), (64, 64), (16, 7), (200, 40), (36, 34), (8, 2)])
+                lines.append("GS %s %d %d %s" % (enc, blk, mc, hx(bs)))
+                meta.append(("u", enc, [u for c in cps for u in utf16(c)] + (utf16(v) + [0x41] if v <= 0x10FFFF else []), 4 * pos if v > 0x10FFFF else None))
+    m, i, err = common.run_pair("codec", "hx_utf8", lines)
+    spec = spec_ascii([me[2] for me in meta if me[0] == "s" and me[1] == "US-ASCII"])
+    cats = {}; first = None; nbad = 0; hist = {}
+    for l, mo, io, me in zip(lines, m, i, meta):
+        kind, enc = me[0], me[1]
+        bad = None
+        if kind == "s":
+            if enc == "US-ASCII":
+                want, off = spec[hx(me[2])]
+            else:
+                legal, tb = table_of(enc)
+                off = next((k for k, b in enumerate(me[2]) if not legal(b)), None)
+                want = [tb(b) for b in (me[2] if off is None else me[2][:off])]
+            bad = judge_stream(io, want, off)
+        elif kind == "u":
+            bad = judge_stream(io, me[2], me[3])
+        elif kind == "f":
+            legal, tb = table_of(enc)
+            bad = judge_single_from(io, me[2], me[3], legal, tb)
+        elif kind == "t":
+            us, room, thr, can = me[2], me[3], me[4], me[5]
+            n = min(room, len(us))
+            firstun = next((k for k in range(n) if not can(us[k])), None)
+            f = io.split()
+            if f and f[0] == "ok" and len(f) == 3:
+                got = unhx(f[1]); eaten = int(f[2])
+                if thr and firstun is not None:
+                    bad = ("unrepresentable-not-rejected", "unit U+%04X at index %d cannot be represented, UnRep_Throw was asked for, but %d units were encoded without an error" % (us[firstun], firstun, eaten))
+                elif len(got) != eaten or eaten != n:
+                    bad = ("encode-count", "wrote %d bytes for %d consumed units (min(room, count) = %d)" % (len(got), eaten, n))
+                elif enc in ("US-ASCII", "ISO-8859-1") and any(can(u) and g != u for u, g in zip(us, got)):
+                    bad = ("encode-wrong", "representable units not written unchanged: %s" % hx(got))
+                elif enc in tabs and any(can(u) and g != tabs[enc][1][u] for u, g in zip(us, got)):
+                    bad = ("encode-wrong", "representable units not written as the to-table says: %s" % hx(got))
+            elif f and f[0] == "exc":
+                if not thr or firstun is None:
+                    bad = ("representable-rejected", "exception %s although %s" % (io, "UnRep_RepChar was asked for" if not thr else "every unit is representable"))
+            else:
+                bad = ("bad-observation", io[:120])
+        elif kind == "c":
+            if io != ("1" if me[3](me[2]) else "0"):
+                bad = ("cantranscode", "canTranscodeTo(U+%04X) = %s" % (me[2], io))
+        hist[kind + ":" + io.split()[0] if io.split() else "?"] = hist.get(kind + ":" + io.split()[0] if io.split() else "?", 0) + 1
+        if bad:
+            nbad += 1
+            key = "codec-%s%s:%s" % ("ascii" if enc == "US-ASCII" else "single-byte" if enc in SINGLE else "ucs4",
+                                     {"s": "-stream", "u": "-stream", "f": "-block", "t": "-encode", "c": ""}[kind], bad[0])
+            if key not in cats or len(l) < len(cats[key][0]):
+                cats[key] = (l, io, bad[1])
+        if mo != io and first is None:
+            first = (l, mo, io)
+    for key, (l, io, what) in cats.items():
+        ctx.violations.append({"key": key, "concrete": True, "what": "%s -> %s: %s" % (l, io[:200], what), "replay": {"op": l, "impl": io}})
+    if first and not cats:
+        ctx.violations.append({"key": "corr:codec", "concrete": False,
+            "what": "correspondence codec stream/block model vs implementation no longer checks: %s model=%s impl=%s" % first,
+            "replay": {"correspondence": "codec", "case": first[0], "model": first[1], "impl": first[2]}})
+    if "runtime error" in err or "AddressSanitizer" in err:
+        ctx.violations.append({"key": "codec-sanitizer", "concrete": True,
+                               "what": "sanitizer report in transcoder harness (stream cases): " + common.sanitizer_summary(err),
+                               "replay": {"stderr": err[-2000:]}})
+    ctx.stats["stream_cases"] = len(lines); ctx.stats["stream_spec_violations"] = nbad; ctx.stats["stream_outcomes"] = hist
+    ctx.stats["evaluations"] = ctx.stats.get("evaluations", 0) + len(lines)
+    ctx.stats["distinct_nontrivial"] = ctx.stats.get("distinct_nontrivial", 0) + len({l for l, me in zip(lines, meta) if me[0] == "c" or any(x >= 0x80 for x in me[2])})
+    ctx.samples.append({"case": lines[40 * 300], "model": m[40 * 300], "impl": i[40 * 300]})
+
+def ascii_doc_correspondence(ctx):
+    """documents declared US-ASCII (and aliases) through the real parser: an illegal byte anywhere — in particular
+    around the positions where the transcoder defers its error (index > 32 of a decoding call) and around the
+    16K character-buffer boundary — must end in a fatal error / exception; the legal control must parse."""
+    r = ctx.rng
+    th = ctx.thorough()
+    ks = list(range(0, 72)) + [100, 1000, 4096] + list(range(16300, 16460, 1 if th else 5)) + [16384, 16417, 32768 + 40]
+    ks = sorted(set(ks))
+    lines = []; meta = []
+    for k in ks:
+        name = r.choice(["US-ASCII", "ASCII", "us-ascii", "US_ASCII", "USASCII"]) if k % 5 == 0 else "US-ASCII"
+        decl = [ord(c) for c in '<?xml version="1.0" encoding="%s"?>' % name]
+        fill = [0x61 + (j % 26) for j in range(k)]
+        for where in (("text", "attr") if (k % 3 == 0 if k < 72 else k % 10 == 0) or th else ("text",)):
+            for b in ([0xE9, 0x80] if k < 72 else [r.choice([0x80, 0xA0, 0xE9, 0xFF])]) + ([None] if k < 72 or k % 10 == 0 or th else []):
+                mid = fill + ([b] if b is not None else [0x7A]) + [0x62, 0x63]
+                if where == "text":
+                    body = [ord(c) for c in "<r>"] + mid + [ord(c) for c in "</r>"]
+                    content = [0x3C, 0x72, 0x7C] + mid + [0x3E]
+                else:
+                    body = [ord(c) for c in '<r a="'] + mid + [ord(c) for c in '"/>']
+                    content = [0x3C, 0x72, 0x7C, 0x61, 0x7C] + mid + [0x7C, 0x3E]
+                lines.append("D " + hx(decl + body)); meta.append((b, k, where, hx(content), name))
+    outs, crashes = common.run_lines_resilient("hx_utf8", lines)
+    cats = {}; hist = {}
+    for l, o, me in zip(lines, outs, meta):
+        b, k, where, content, name = me
+        bad = None
+        rejected = o.startswith("fatal") or o.startswith("exc ")
+        hist[("illegal:" if b is not None else "legal:") + o.split()[0]] = hist.get(("illegal:" if b is not None else "legal:") + o.split()[0], 0) + 1
+        if o.startswith("CRASH") or o.startswith("FOREIGN"):
+            bad = ("doc-encoding-crash", o[:100])
+        elif b is not None and not rejected:
+            bad = ("doc-ascii-illegal-byte-accepted", "document declared %s with byte 0x%02X after %d legal characters of %s was accepted" % (name, b, k, where))
+        elif b is None and not (o.startswith("ok " + content + " ") and o.endswith(" w=0 e=0")):
+            bad = ("doc-encoding-content", "legal %s document (%d characters of %s) must yield its content" % (name, k + 3, where))
+        if bad and (bad[0] not in cats or len(l) < len(cats[bad[0]][0])):
+            cats[bad[0]] = (l, o, bad[1])
+    for key, (l, o, what) in cats.items():
+        ctx.violations.append({"key": key, "concrete": True, "what": "%s; parser result: %s" % (what, o[:120]), "replay": {"op": l, "impl": o[:400]}})
+    ctx.stats["ascii_doc_cases"] = len(lines); ctx.stats["ascii_doc_outcomes"] = hist
+    ctx.stats["evaluations"] = ctx.stats.get("evaluations", 0) + len(lines)
+    ctx.stats["distinct_nontrivial"] = ctx.stats.get("distinct_nontrivial", 0) + len({l for l, me in zip(lines, meta) if me[0] is not None})
+
 # ------------------------------------------------------------------ document level
 DOC_ENCS = [  # (declared name, family, encoder key)
     ("UTF-8", "8", "utf8"), ("ISO-8859-1", "8", "ISO-8859-1"), ("US-ASCII", "8", "US-ASCII"), ("windows-1252", "8", "windows-1252"),
@@ -508,6 +785,10 @@ def search(ctx, broken):
     check_decode_against_spec(ctx, bl, "search after broken %s %s" % (broken["kind"], broken["name"]), [int(l.split()[1]) for l in F])
     if len(ctx.violations) == before:
         codec_correspondence(ctx)
+    if len(ctx.violations) == before:
+        stream_correspondence(ctx)
+    if len(ctx.violations) == before:
+        ascii_doc_correspondence(ctx)
     if len(ctx.violations) > before:
         return ctx.violations.pop()
     return None
@@ -518,9 +799,14 @@ def replay(ctx, path):
     if "op" in r and isinstance(r["op"], str) and r["op"].split()[0] == "D":
         p = common.run_harness("hx_utf8", input=(r["op"] + "\n").encode())
         print("case :", r["op"]); print("impl :", p.stdout.decode().strip()); return 0
-    if "op" in r and isinstance(r["op"], str) and r["op"].split()[0] in ("GF", "GT", "GC", "P"):
+    if "op" in r and isinstance(r["op"], str) and r["op"].split()[0] in ("GF", "GT", "GC", "GS", "P"):
         m, i, _ = common.run_pair("codec", "hx_utf8", [r["op"]])
-        print("case :", r["op"]); print("model:", m[0]); print("impl :", i[0]); return 0
+        print("case :", r["op"]); print("model:", m[0]); print("impl :", i[0])
+        f = r["op"].split()
+        if f[0] in ("GS", "GF") and f[1] == "US-ASCII":
+            want, off = spec_ascii([unhx(f[-1])])[f[-1]]
+            print("spec :", hx(want), "legal" if off is None else "illegal byte at offset %d" % off)
+        return 0
     if "bytes" in r:
         line = "F 4096 " + r["bytes"]
     elif "op" in r and isinstance(r["op"], str) and r["op"][:1] in "FT":
